@@ -1,8 +1,8 @@
 """C09 Consumer positions survive crashes with the promised delivery guarantee."""
 from . import crashfam
 
-PROFILE = {'topics': 2, 'nops': (16, 40), 'op_w': [4.5, 1.2, 6, 0.3, 0, 0.35, 0.4], 'read_w': [5, 2, 0.3, 0.2, 0.3, 0.2, 0],
-           'size_w': [6, 1.5, 1.2, 0.6, 0], 'batch_w': [6, 2, 0, 0], 'max_bytes': 60_000_000, 'no_final': True}
+PROFILE = {'topics': 2, 'nops': (16, 40), 'op_w': [4.5, 1.2, 7, 0.3, 0, 0.1, 0.4], 'read_w': [5, 2, 0.3, 0.2, 0.3, 0.2, 0],
+           'size_w': [6, 1.5, 1.2, 0.6, 0], 'batch_w': [6, 2, 0, 0], 'max_bytes': 60_000_000, 'no_final': True, 'rn_only_p': 0.55, 'topics_choices': [1, 1, 2]}
 RULE = ('read-dominated workloads (read_next and batch reads at sealed and tail positions, rotations, optional earlier clean restart so that '
         'recovery-assigned block ids are in play) crashed before every numbered I/O event (cursor-index tmp-write / fsync / rename / '
         'dir-fsync, block writes, ...); the directory as left is reopened by a fresh process and each topic drained: StrictlyAtOnce - the '
@@ -12,9 +12,10 @@ RULE = ('read-dominated workloads (read_next and batch reads at sealed and tail 
 
 def run(tier, seed, budget):
     q = tier == 'quick'
-    rep = crashfam.run_family('C09', tier, seed, budget, PROFILE, n_workloads=12 if q else 150, max_points=60 if q else 400,
+    rep = crashfam.run_family('C09', tier, seed, budget, PROFILE, n_workloads=10 if q else 150, max_points=50 if q else 400,
                               batch_subsets=3 if q else 8, rule=RULE,
-                              required={'crash_points': 250, 'crash_points_with_consumed_entries': 150, 'in_flight_op:read_next': 30,
+                              param_spec={'modes': ['strict', 'strict', {'alo': 1}, {'alo': 2}, {'alo': 2}, {'alo': 3}, {'alo': 4}]},
+                              required={'crash_points': 200, 'crash_points_with_consumed_entries': 120, 'in_flight_op:read_next': 30,
                                         'crash_at_event:rename': 20, 'crash_at_event:tmp_write': 20},
                               assumptions=['process-crash model (see C07)', 'AtLeastOnce redelivery bound is checked only for topics whose consumer used read_next exclusively'],
                               profiles=('debug',) if q else ('debug', 'release'))
